@@ -6,7 +6,7 @@
      index; all three were replayed on the implementation before the fix
      b1dbe45 (docs/notes/C12.md).
    - capacity witnesses for C11 (outside the guards of the round-trip theorem). *)
-From Coq Require Import NArith List Bool Lia.
+From Coq Require Import NArith List Bool Lia Permutation.
 From LC Require Import Base.Lib Model.Utf8 Model.Der Model.Syllable Model.TrieCodec.
 Import ListNotations.
 Open Scope N_scope.
@@ -114,6 +114,13 @@ Definition w_big_phrase : phrase := mkPhrase (N.iter 65525 (cons 97) []) 5 None.
 Definition w_big_tree : tnode := tinsert [11859] w_big_phrase tempty.
 Definition MAXFIRST : N := 18446744073709551615.
 
+(* at tree level the key has one phrase *)
+Definition tlookup_len_one : bool :=
+  match tleaf w_big_tree, tchildren w_big_tree with
+  | None, [(11859, TNode (Some [p]) [])] => true
+  | _, _ => false
+  end.
+
 Definition big_check : bool :=
   match write (mkInfo [] [] [] [] []) w_big_tree with
   | Ok bytes =>
@@ -130,18 +137,13 @@ Proof. vm_compute. reflexivity. Qed.
 Lemma big_leaf_size : option_map len_N (enc_phrases (sort_leaf [w_big_phrase])) = Some 65536.
 Proof. vm_compute. reflexivity. Qed.
 
+(* big_check = true says: write succeeds, open accepts the file, and the lookup of the
+   inserted key returns the empty list *)
 Lemma leaf_over_capacity_truncates :
-  exists bytes tr,
-    write (mkInfo [] [] [] [] []) w_big_tree = Ok bytes /\ open bytes = Ok tr /\
-    lookup tr [11859] MAXFIRST STANDARD = Ok [] /\
-    option_map len_N (enc_phrases (sort_leaf [w_big_phrase])) = Some 65536.
-Proof.
-  pose proof big_check_true as H. unfold big_check in H.
-  destruct (write (mkInfo [] [] [] [] []) w_big_tree) as [bytes| | |] eqn:Hw; try discriminate H.
-  destruct (open bytes) as [tr| | |] eqn:Ho; try discriminate H.
-  destruct (lookup tr [11859] MAXFIRST STANDARD) as [[|? ?]| | |] eqn:Hl; try discriminate H.
-  exists bytes, tr. split; [reflexivity|]. split; [exact Ho|]. split; [exact Hl|exact big_leaf_size].
-Qed.
+  big_check = true /\
+  option_map len_N (enc_phrases (sort_leaf [w_big_phrase])) = Some 65536 /\
+  tlookup_len_one = true.
+Proof. split; [exact big_check_true|]. split; [exact big_leaf_size|]. vm_compute. reflexivity. Qed.
 
 (* (2) a leaf that mixes one-character and multi-character phrases of unusual byte
    lengths: the comparator of phrases.sort_by is not transitive there, so "the
@@ -159,9 +161,9 @@ Proof. repeat split; vm_compute; reflexivity. Qed.
 (* the order of the written leaf then depends on the insertion order of the same set *)
 Lemma mixed_leaf_order_depends_on_insertion :
   sort_leaf [w_p2; w_pm; w_p1] <> sort_leaf [w_p1; w_p2; w_pm] /\
-  Permutation.Permutation [w_p2; w_pm; w_p1] [w_p1; w_p2; w_pm].
+  Permutation [w_p2; w_pm; w_p1] [w_p1; w_p2; w_pm].
 Proof.
   split; [vm_compute; discriminate|].
-  apply Permutation.Permutation_sym.
-  exact (Permutation.Permutation_cons_append [w_p2; w_pm] w_p1).
+  apply Permutation_sym.
+  exact (Permutation_cons_append [w_p2; w_pm] w_p1).
 Qed.
